@@ -314,8 +314,12 @@ def objective():
         else:
             firsts["minsup"] = lambda A: A["m"].minsup(rsome.E(A["y"] * A["z"][0]), A["m"].ambiguity())
             firsts["maxinf"] = lambda A: A["m"].maxinf(rsome.E(A["y"] * A["z"][0]), A["m"].ambiguity())
+        seconds = dict(firsts)
+        # a first objective that is a constant (a feasibility model) or a falsy value is still an objective
+        firsts.update({"min 0": lambda A: A["m"].min(0), "max 0.0": lambda A: A["m"].max(0.0), "min np.float64(0)": lambda A: A["m"].min(np.float64(0)),
+                       "min 2.5": lambda A: A["m"].min(2.5), "min 0*y": lambda A: A["m"].min(0 * A["y"]), "max y-y": lambda A: A["m"].max(A["y"] - A["y"])})
         for n1, f1 in firsts.items():
-            for n2, f2 in firsts.items():
+            for n2, f2 in seconds.items():
                 out += _raises(f"{F}.{n2}", f"redefinition after {n1}", one, lambda A, B, c, f1=f1, f2=f2: (f1(A), f2(A)))
         nonscalar = {"min": lambda A: A["m"].min(A["x"]), "max": lambda A: A["m"].max(A["x"]),
                      "min slice": lambda A: A["m"].min(A["x"][0:2]), "min affine": lambda A: A["m"].min(2 * A["x"] + 1),
@@ -335,6 +339,8 @@ def objective():
         return dict(m=m, x=x), None
     out += _raises("rsome.lp:Model.min", "redefinition", lpone, lambda A, B, c: (A["m"].min(A["x"][0]), A["m"].min(A["x"][1])))
     out += _raises("rsome.lp:Model.max", "redefinition", lpone, lambda A, B, c: (A["m"].min(A["x"][0]), A["m"].max(A["x"][1])))
+    out += _raises("rsome.lp:Model.min", "redefinition after min 0", lpone, lambda A, B, c: (A["m"].min(0), A["m"].min(A["x"][1])))
+    out += _raises("rsome.lp:Model.max", "redefinition after max 0.0", lpone, lambda A, B, c: (A["m"].max(0.0), A["m"].max(A["x"][1])))
     out += _raises("rsome.lp:Model.min", "non-scalar", lpone, lambda A, B, c: A["m"].min(A["x"]))
     out += _raises("rsome.lp:Model.max", "non-scalar slice", lpone, lambda A, B, c: A["m"].max(A["x"][0:2]))
     return out
